@@ -227,7 +227,7 @@ func c10run(env *core.Env, idx int) core.CaseResult {
 	slotName := map[int]string{}
 	slotDir := map[int]bool{}
 	listed := map[int][2]map[string]bool{}
-	complete := map[int]bool{} // the handle's listing was read to the end
+	complete := map[int]bool{}       // the handle's listing was read to the end
 	firstOpen := map[string][2]int{} // name -> source (opens, reads) right after the first successful open through the cache
 	var script []fsx.Step
 	names := append(append([]string(nil), tree.files...), tree.dirs...)
